@@ -47,3 +47,21 @@ class SimHeader(object):
 
     def __repr__(self):
         return "Hdr(%s<-%s w%s)" % (self._h.label, self.previous_block_hash.label, self.difficulty)
+
+
+class SimBytes(bytes):
+    """a bytes value whose hash-table slot does not depend on PYTHONHASHSEED (it is a function of its content).
+
+    Library code that puts transaction hashes into a set and iterates over it (Tx.validate_unspents) then visits
+    them in an order that is a function of the plan alone.  Only ever mixed with other SimBytes in one set / dict
+    (a plain bytes object that compares equal would hash differently): the worlds convert at the seam."""
+    __slots__ = ()
+
+    def __hash__(self):
+        return int.from_bytes(self[:7], "little") ^ len(self)
+
+    def __eq__(self, other):
+        return bytes.__eq__(self, other)
+
+    def __ne__(self, other):
+        return bytes.__ne__(self, other)
